@@ -2,6 +2,7 @@ package icmp
 
 import (
 	"context"
+	"fmt"
 	"net"
 	"sync"
 	"time"
@@ -209,6 +210,11 @@ func (s *Session) Encrypt(plaintext []byte) ([]byte, error) {
 	s.mu.RLock()
 	defer s.mu.RUnlock()
 
+	// Close clears the key; a closed session must not fall back to plaintext
+	if s.closed {
+		return nil, fmt.Errorf("session closed")
+	}
+
 	if s.SessionKey == nil {
 		return plaintext, nil
 	}
@@ -223,6 +229,10 @@ func (s *Session) Encrypt(plaintext []byte) ([]byte, error) {
 func (s *Session) Decrypt(ciphertext []byte) ([]byte, error) {
 	s.mu.RLock()
 	defer s.mu.RUnlock()
+
+	if s.closed {
+		return nil, fmt.Errorf("session closed")
+	}
 
 	if s.SessionKey == nil {
 		return ciphertext, nil
